@@ -12,7 +12,7 @@ NAMES = ["DEPT", "GR", "gr", "RES", "", "A", "A:1", " ", "NEW", "X"]
 NAMES_PLAIN = ["DEPT", "GR", "gr", "RES", "", "A", " ", "NEW", "X"]
 UNITS = ["", "M", "OHMM", "US/F"]
 DESCRS = ["", "a descr", "Gamma Ray"]
-VALUES = ["", "45 310 01 00", 7, 1.5]
+VALUES = ["", "45 310 01 00", 7, 1.5, None]
 
 
 def mkarr(seed, rows, nan_at=None):
@@ -174,6 +174,30 @@ class CurveMachine(object):
             u, d, v = UNITS[k % len(UNITS)], DESCRS[k % len(DESCRS)], VALUES[k % len(VALUES)]
             las.replace_curve_item(i, self.lasio.CurveItem(name, u, v, d, a))
             L[i] = {"orig": name, "unit": u, "value": v, "descr": d, "data": a.copy()}
+        elif kind == "move":
+            # an existing CurveItem object (possibly carrying a :n suffix) is taken out and put back elsewhere
+            if n == 0:
+                r.count("op-skipped")
+                return
+            _, ii, jj, how = op
+            i = ii % n
+            item = list(list.__iter__(las.curves))[i]
+            rec = L[i]
+            las.delete_curve(ix=i)
+            del L[i]
+            if how == "append" or not L:
+                las.append_curve_item(item)
+                L.append(rec)
+            elif how == "insert":
+                las.insert_curve_item(jj, item)
+                L.insert(jj, rec)
+            else:
+                t = jj % len(L)
+                las.replace_curve_item(t, item)
+                L[t] = rec
+            self.check_views()
+            self.check_group(rec["orig"])
+            return
         elif kind == "setitem_arr":
             _, keyspec, aseed = op
             key = self.resolve_key(keyspec)
@@ -243,6 +267,24 @@ class CurveMachine(object):
         else:
             raise ValueError("unknown op %r" % (op,))
         self.check_views()
+
+    def check_group(self, name):
+        """Right after an item was put into the list, the curves that share its name are numbered :1..:n in list order (a
+        name borne by one curve may keep a stale suffix from an earlier deletion - that is C13's tolerated case)."""
+        import re as _re
+        origs = [m["orig"] for m in self.L]
+        if any(_re.match(r"^.*:\d+$", useful(o)) for o in origs):
+            return
+        ci = bool(self.las.curves.mnemonic_transforms)
+        u = useful(name)
+        idx = [i for i, o in enumerate(origs) if same(useful(o), u, ci)]
+        if len(idx) < 2:
+            return
+        got = [self.sessions()[i] for i in idx]
+        want = ["%s:%d" % (useful(origs[i]), k + 1) for k, i in enumerate(idx)]
+        if got != want:
+            self.fail("C14.views", "after putting a curve named %r back, the curves of that name are called %r, the list model says %r" % (
+                name, got, want))
 
     def check_renamed(self):
         """set_data gives every curve its name (again): right afterwards the curve list is named like a freshly built
@@ -387,8 +429,10 @@ def gen_curve_ops(g, n, names, with_set_data=True):
             if how == "mn" and g.random() < 0.25:
                 fields["also_ix"] = g.randrange(8)
             ops.append(["update", how, g.randrange(8), fields])
-        elif r < 0.78:
+        elif r < 0.75:
             ops.append(["replace", g.randint(-3, 5), g.choice(names), a, k])
+        elif r < 0.78:
+            ops.append(["move", g.randrange(8), g.randint(-3, 6), g.choice(["insert", "append", "replace"])])
         elif r < 0.85:
             spec = ["cur", g.randrange(8)] if g.random() < 0.5 else ["new", g.choice([x for x in names if x.strip()])]
             ops.append(["setitem_arr", spec, a])
